@@ -453,9 +453,15 @@ def r5_precheck_first(ctx, res):
     # that omits it, and two such lexicons would "clash" on None)
     for r in pv.rows:
         m = _re.match(r'^#\d+\.(?:update|add)\(\(_1\[(\d+)\] for _1 in (\w+)\(', r[1]) if r[0] == 'call' else None
-        if not m:
-            continue
-        qn, idx = m.group(2), int(m.group(1))
+        if m:
+            qn, idx = m.group(2), int(m.group(1))
+        else:
+            # loop form:  for row in Q(...): ids.add(row[k])
+            m = _re.match(r'^#\d+\.add\(\$2\[(\d+)\]\)$', r[1]) if r[0] == 'call' and len(r[3]) == 2 else None
+            m2 = _re.match(r'^for (\w+)\(', r[3][1]) if m else None
+            if not m2:
+                continue
+            qn, idx = m2.group(1), int(m.group(1))
         cols = {'find_entries': ['entries.id']}.get(qn) or SELECT_LISTS.get(qn)
         key = f'precheck-id-column:{qn}'
         col = cols[idx] if cols and idx < len(cols) else None
